@@ -4,7 +4,8 @@ CONSTANTS
  MaxInit = 4
  MaxDepth = 2
  MergeRule = "adjacent"
- Ops = {"Split","Merge","StopPeer","Remove","SetState","Reload"}
+ Ops = {"Split","Merge","StopPeer","Remove","SetState","Rewrite","Reload"}
+ Script <- NoScript
  Emit = TRUE
 INVARIANT EmitHist
 CHECK_DEADLOCK FALSE
